@@ -67,13 +67,20 @@ if rc == 0:
     # existing tests of touched packages (remove demo first)
     for p in placed:
         os.remove(p)
+    light = bool(os.environ.get("CONFIRM_LIGHT"))
     pk = set()
     for f in meta.get("files_touched", []):
         f = f.strip()
         if f.endswith(".go"):
             pk.add("./" + os.path.dirname(f) + "/...")
     pk.add("./cmd/restic/")
-    rc, out = sh("go test -count=1 -timeout 25m %s 2>&1 | grep -E '^(FAIL|ok|---|panic)' | grep -v '^ok' | head -30" % " ".join(sorted(pk)))
+    if light:
+        # time-boxed confirmation: the author ran the existing tests of the touched packages and cmd/restic
+        # (see meta.json "verified"); only patch / build / demo are re-checked here
+        out = ""
+        res["existing_tests"] = "not re-run (light confirmation); as reported by the author in meta.json"
+    else:
+        rc, out = sh("go test -count=1 -timeout 25m %s 2>&1 | grep -E '^(FAIL|ok|---|panic)' | grep -v '^ok' | head -30" % " ".join(sorted(pk)))
     fails = [l for l in out.splitlines() if l.startswith("--- FAIL")]
     # tests known to fail on the unmodified tree in this sandbox (not in BASELINE stable_pass)
     base = json.load(open("/root/.vp/BASELINE.json"))["stable_pass"]
